@@ -282,11 +282,17 @@ def handle (op : String) (j : Json) : Option (Except String Json) :=
     let patchOk := match m with
       | .ins _ _ p => ir.patchOkB p
       | .del _ _ _ => true
+    -- premises of `Props.C05.expression_symbols_are_part_of_the_module`
+    let exprOk := ir.exprOkB
+    let patchExprOk := match m with
+      | .ins _ _ p => ir.patchExprOkB p
+      | .del _ _ _ => true
     let sinvAfter : Json := match IR.applyMods origOff func ir (some actual) total [m] with
       | .ok ir' => Json.bool (ir'.symsOkB && ir'.ordOkB)
       | .error _ => Json.null
     .ok (Json.mkObj [("ao", ao), ("ids_below", Json.bool idsBelow), ("new_blocks", Json.bool newBlocks), ("minv", Json.bool minv),
-      ("sinv", Json.bool sinv), ("patch_ok", Json.bool patchOk), ("sinv_after", sinvAfter), ("res", res)])
+      ("sinv", Json.bool sinv), ("patch_ok", Json.bool patchOk), ("sinv_after", sinvAfter),
+      ("expr_ok", Json.bool exprOk), ("patch_expr_ok", Json.bool patchExprOk), ("res", res)])
   | _ => none
 
 end Driver.IRJson
